@@ -252,7 +252,7 @@ OUT = ('programs outside the families; pickle protocol / interpreter version cha
 
 def jobs(tier):
     out = []
-    langs = ['kotlin'] if tier == 'quick' else F.LANGS       # the language only parameterises how the mutations run
+    langs = ['kotlin'] if tier == 'quick' else ['java', 'kotlin']   # the language only parameterises how the mutations run
     nseeds = 2 if tier == 'quick' else 5
     for lang in langs:
         out.append(Job('roundtrip-%s' % lang, h_roundtrip, dict(tier=tier, lang=lang, sym_draws=0, part='roundtrip'),
@@ -261,7 +261,7 @@ def jobs(tier):
                        bounds='every family member (41 fixtures + %d generated programs per language) x stage in {generated, '
                               'erased, erased+overwritten}: translations in 4 languages, structure, second dump, type erasure on '
                               'original vs reloaded copy (mutations run as for language %s)' % (nseeds, lang), outside=OUT))
-        nd = 1 if tier == 'quick' else 3
+        nd = 1 if tier == 'quick' else 2
         out.append(Job('mutation-equivalence-%s' % lang, h_roundtrip, dict(tier=tier, lang=lang, sym_draws=nd, part='mutation'),
                        split_depth=3, functions=FUNCS, require_events=['roundtrip', 'overwritten'], budget_s=2400,
                        crosscheck_every=200, setup=lambda t=tier, l=lang: prebuild(t, l, 'mutation'),
